@@ -41,12 +41,16 @@ Str(n) == IF n < 10 THEN Digits[n + 1] ELSE Digits[(n \div 10) + 1] \o Digits[(n
 MidKinds == <<"shself", "shother", "public", "global", "equ", "set", "byte", "blank", "listing", "call0", "callsh">>
 FolKinds == <<"insn", "word", "byte", "resw", "align">>      \* + "end" for the last block of a program
 Transparent == {"blank", "call0"}        \* no operation part / a macro call that expands to nothing: no LabelReset
-Padders == {"insn", "word", "resw"}      \* statements that ask InsertPadding for an even address
+Targets == {"68k", "msp"}                \* 68000 (DS.W is padded, too) and MSP430 with PADDING ON (BSS reserves bytes)
+Padders(tgt) == IF tgt = "68k" THEN {"insn", "word", "resw"} ELSE {"insn", "word"}
+                                         \* statements that ask InsertPadding for an even address
 
 L(b) == "L" \o Str(b)                    \* the label of block b, alone on its line
 N(b) == "N" \o Str(b)                    \* the label behind the following statement (on a DC.B line)
 X(b, j) == "X" \o Str(b) \o (IF j = 1 THEN "A" ELSE "B")    \* the symbol an intervening EQU / SET defines
 
+\* a statement: k = kind, lab = label field, names = symbols in the operand field, a = ORG address / number of data
+\* bytes / which of the two blank lines / for DS: 1 = asks for an even address on this target
 It(k, lab, names, a) == [k |-> k, lab |-> lab, names |-> names, a |-> a]
 
 MidItem(b, j, m) ==
@@ -62,12 +66,12 @@ MidItem(b, j, m) ==
     [] m = "call0"   -> It("call0", "", <<>>, 0)
     [] m = "callsh"  -> It("callsh", "", <<L(b)>>, 0)
 
-BlockItems(b, blk) ==
+BlockItems(b, blk, tgt) ==
   <<It("org", "", <<>>, Base + Span * b)>>
   \o (IF blk.odd THEN <<It("byte", "", <<>>, 1)>> ELSE <<>>)
   \o <<It("label", L(b), <<>>, 0)>>
   \o [j \in 1..Len(blk.mids) |-> MidItem(b, j, blk.mids[j])]
-  \o (IF blk.fol = "end" THEN <<>> ELSE <<It(blk.fol, "", <<>>, 1), It("byte", N(b), <<>>, 1)>>)
+  \o (IF blk.fol = "end" THEN <<>> ELSE <<It(blk.fol, "", <<>>, IF blk.fol = "byte" \/ blk.fol \in Padders(tgt) THEN 1 ELSE 0), It("byte", N(b), <<>>, 1)>>)
 
 BlockNames(b, blk) ==
   <<L(b)>> \o (IF blk.fol = "end" THEN <<>> ELSE <<N(b)>>)
@@ -76,7 +80,7 @@ BlockNames(b, blk) ==
 RECURSIVE Cat(_)
 Cat(ss) == IF ss = <<>> THEN <<>> ELSE Head(ss) \o Cat(Tail(ss))
 
-\* the flat statement list of a program [blocks, fwd]: a reference table (DC.W of every symbol: the code file as a
+\* the flat statement list of a program [blocks, fwd, tgt]: a reference table (DC.W of every symbol: the code file as a
 \* witness of the values) and a SHARED of every symbol stand behind the blocks - in front of the last block when that
 \* one ends the program with END -; fwd = a SHARED of every block label in front of everything (forward reference:
 \* the values come from the previous pass)
@@ -88,9 +92,9 @@ Flatten(prog) ==
       tail == <<It("org", "", <<>>, Base + Span * (K + 1)), It("table", "", nm, 0), It("shared", "", nm, 0)>>
   IN  (IF prog.fwd THEN <<It("shared", "", [b \in 1..K |-> L(b)], 0)>> ELSE <<>>)
       \o <<It("org", "", <<>>, Base), It("byte", "START", <<>>, 1)>>
-      \o Cat([b \in 1..Kt |-> BlockItems(b, prog.blocks[b])])
+      \o Cat([b \in 1..Kt |-> BlockItems(b, prog.blocks[b], prog.tgt)])
       \o tail
-      \o (IF last THEN BlockItems(K, prog.blocks[K]) ELSE <<>>)
+      \o (IF last THEN BlockItems(K, prog.blocks[K], prog.tgt) ELSE <<>>)
       \o <<It("end", "", <<>>, 0)>>
 
 Range(f) == {f[q] : q \in DOMAIN f}
@@ -129,7 +133,7 @@ Exec(s, i, it) ==
   CASE it.k = "org"    -> [s EXCEPT !.pc = it.a]
     [] it.k = "byte"   -> Lay(s, i, "emit", it.a)
     [] it.k \in {"insn", "word"} -> Lay(Aligned(s, i, FALSE), i, "emit", 2)
-    [] it.k = "resw"   -> Lay(Aligned(s, i, TRUE), i, "res", 2)
+    [] it.k = "resw"   -> Lay(IF it.a = 1 THEN Aligned(s, i, TRUE) ELSE s, i, "res", 2)
     [] it.k = "table"  -> LET s1 == Aligned(s, i, FALSE) IN Snapshot(Lay(s1, i, "emit", 2 * Len(it.names)), it.names, "tab")
     [] it.k = "align"  -> IF Odd(s.pc) THEN Lay(s, i, "res", 1) ELSE s          \* CodeALIGN: no LabelModify
     [] it.k = "shared" -> Snapshot(s, it.names, "share")
@@ -179,21 +183,21 @@ CodeFinal(r)  == \A q \in 1..Len(r.tab) : r.tab[q].val = r.val[r.tab[q].name]
 Count(seq, x) == Cardinality({j \in 1..Len(seq) : seq[j] = x})
 EntryAddr(b, blk) == Base + Span * b + (IF blk.odd THEN 1 ELSE 0)
 FolRaw(b, blk)    == EntryAddr(b, blk) + Count(blk.mids, "byte")               \* where the following statement begins
-FolCode(b, blk)   == IF blk.fol \in Padders /\ Odd(FolRaw(b, blk)) THEN FolRaw(b, blk) + 1 ELSE FolRaw(b, blk)
+FolCode(b, blk, tgt) == IF blk.fol \in Padders(tgt) /\ Odd(FolRaw(b, blk)) THEN FolRaw(b, blk) + 1 ELSE FolRaw(b, blk)
 StillPending(blk) == \A j \in 1..Len(blk.mids) : blk.mids[j] \in Transparent
 \* the label's final value: the address of the following code if the label is still pending when that statement is
 \* padded, the address of the label line otherwise
-ExpectFinal(b, blk) == IF StillPending(blk) THEN FolCode(b, blk) ELSE EntryAddr(b, blk)
+ExpectFinal(b, blk, tgt) == IF StillPending(blk) THEN FolCode(b, blk, tgt) ELSE EntryAddr(b, blk)
 \* the manual decides: nothing between label and statement (moved), or another instruction between them (not moved);
 \* it is silent about empty lines and calls of empty macros (the code: still pending)
 ManualDecides(blk) == blk.mids = <<>> \/ ~StillPending(blk)
-FinalAsText(prog, r) == \A b \in 1..Len(prog.blocks) : r.val[L(b)] = ExpectFinal(b, prog.blocks[b])
+FinalAsText(prog, r) == \A b \in 1..Len(prog.blocks) : r.val[L(b)] = ExpectFinal(b, prog.blocks[b], prog.tgt)
 \* ... equals the address the following code was laid down at iff the label is still pending when the padding
 \* happens (or nothing at all lies between the label and the code)
 MovedIff(prog, r) ==
   \A b \in 1..Len(prog.blocks) : LET blk == prog.blocks[b] IN
      blk.fol \in {"insn", "word", "byte", "resw"} =>
-       ((r.val[L(b)] = FolCode(b, blk)) <=> (StillPending(blk) \/ FolCode(b, blk) = EntryAddr(b, blk)))
+       ((r.val[L(b)] = FolCode(b, blk, prog.tgt)) <=> (StillPending(blk) \/ FolCode(b, blk, prog.tgt) = EntryAddr(b, blk)))
 \* a symbol copied from the label by EQU / SET: the statement ends the pending state, so the copy is the final value
 CopiesFinal(prog, r) ==
   \A b \in 1..Len(prog.blocks) : \A j \in 1..Len(prog.blocks[b].mids) :
@@ -202,7 +206,8 @@ CopiesFinal(prog, r) ==
 LayoutSane(items, r) ==
   \A q \in 1..Len(r.lay) : LET e == r.lay[q] IN
      /\ e.k \in {"pad", "padres"} => Odd(e.addr) /\ q < Len(r.lay) /\ r.lay[q + 1].i = e.i /\ r.lay[q + 1].addr = e.addr + 1
-     /\ (items[e.i].k \in {"insn", "word", "resw", "table"} /\ e.k \in {"emit", "res"}) => ~Odd(e.addr)
+     /\ (items[e.i].k \in {"insn", "word", "table"} \/ (items[e.i].k = "resw" /\ items[e.i].a = 1)) /\ e.k \in {"emit", "res"}
+          => ~Odd(e.addr)
 \* line:address entries of the debug file for statement i: one per piece laid down (the pad byte, the code)
 LineEntries(r, i) == {r.lay[q].addr : q \in {q \in 1..Len(r.lay) : r.lay[q].i = i /\ r.lay[q].k # "padres"}}
 =============================================================================
